@@ -395,18 +395,55 @@ def run(ck):
             de_terms.append("((%s, %s, %s), Some %s)" % (hp, a, b, o1))
             de_terms.append("((%s, %s, %s), Some %s)" % (hp, b, a, o2))
             de_names += [name, name + "(swapped)"]
+        from concurrent.futures import ThreadPoolExecutor
+        pool = ThreadPoolExecutor(4)          # the model evaluations below run side by side
+        fut_deep = None
         if de_terms:
-            badd = ck.coq_mismatches(hdr + "Local Open Scope Z_scope.\nLocal Open Scope N_scope.\n", de_terms,
-                                     "(fun x => deep_equal 30 (fst (fst x)) (snd (fst x)) (snd x))", "(option_eqb Bool.eqb)", "c15_deep")
-            for j in badd[:3]:
-                ck.correspondence_broken("C15.Model/deep_equal", {"probe": de_names[j], "observed": Lo.get(de_names[j].split("(")[0] + "|DeepEqual")})
+            fut_deep = pool.submit(ck.coq_mismatches, hdr + "Local Open Scope Z_scope.\nLocal Open Scope N_scope.\n", de_terms,
+                                   "(fun x => deep_equal 30 (fst (fst x)) (snd (fst x)) (snd x))", "(option_eqb Bool.eqb)", "c15_deep")
             n_lines += len(de_terms)
-        # integer Convert / Set / Get / Overflow tables: llgo's observed results vs the Coq model
+        # FieldByName over the generated embedding graphs: llgo's observed results vs the BFS model and
+        # vs the path rule
+        fb_terms, fb_raw = [], []
+        graphs = getattr(gen.program, "graphs", [])
+        for k, (gname, g) in enumerate(graphs):
+            gt = gen.fb_coq(g)
+            for key, lv in Lo.items():
+                m = re.match(r"FB\.%d\|FieldByName(Func)?\[(.+)\]$" % k, key)
+                if not m or lv.startswith("PANIC"):
+                    continue
+                mm = re.match(r"(true|false) \[([\d ]*)\]", lv)
+                if not mm:
+                    continue
+                codes = [gen.fb_name_code(k, n) for n in m.group(2).split("|")]
+                obs = "(Some [%s])" % "; ".join(mm.group(2).split()) if mm.group(1) == "true" else "None"
+                fb_terms.append("((%s, [%s]), %s)" % (gt, "; ".join(str(c) for c in codes), obs))
+                fb_raw.append((gname, key, lv))
         ic_terms, ic_raw, is_terms, is_raw = int_table_cases(Lo)
         if ck.tier == "quick" and len(ic_terms) > 2500:       # every pair of kinds stays; thin out the values
             keep = sorted(ck.rng.sample(range(len(ic_terms)), 2500))
             ic_terms, ic_raw = [ic_terms[j] for j in keep], [ic_raw[j] for j in keep]
-        int_table_compare(ck, hdr, ic_terms, ic_raw, is_terms, is_raw, "llgo")
+        fut_int = pool.submit(int_table_compare, ck, hdr, ic_terms, ic_raw, is_terms, is_raw, "llgo")
+        if fb_terms:
+            nhdr = hdr + "Definition res_eqb (a b : option (list N)) : bool := option_eqb (list_eqb N.eqb) a b.\n"
+            fut1 = pool.submit(ck.coq_mismatches, nhdr, fb_terms, "(fun c => field_by_name_func true (fst c) 0 (fun n => mem_N n (snd c)))", "res_eqb", "c15_fbn_bfs")
+            fut2 = pool.submit(ck.coq_mismatches, nhdr, fb_terms, "(fun c => go_field_by_name_func (fst c) 0 (fun n => mem_N n (snd c)))", "res_eqb", "c15_fbn_spec")
+            badf1, badf2 = fut1.result(), fut2.result()
+            for j in sorted(set(badf1) | set(badf2))[:4]:
+                gname, key, lv = fb_raw[j]
+                ck.violation("reflect-fieldbyname-differs-from-path-rule" if j in badf2 else "reflect-fieldbyname-differs-from-bfs-model",
+                             "graph %s, %s: llgo reports %r; the %s says otherwise" % (gname, key, lv[:80], "Go rule over paths" if j in badf2 else "BFS model"),
+                             {"graph": gname, "types": dict(graphs)[gname], "probe": key, "llgo": lv, "go": G.get(key)})
+            n_lines += 2 * len(fb_terms)
+            ck.cov["fieldbyname_model_cases"] = len(fb_terms)
+            for gname, g in graphs:
+                classes["fbgraph:" + re.sub(r"\d+$", "", gname)] += 1
+        # integer Convert / Set / Get / Overflow tables: llgo's observed results vs the Coq model (submitted above)
+        fut_int.result()
+        if fut_deep is not None:
+            for j in fut_deep.result()[:3]:
+                ck.correspondence_broken("C15.Model/deep_equal", {"probe": de_names[j], "observed": Lo.get(de_names[j].split("(")[0] + "|DeepEqual")})
+        pool.shutdown()
         n_lines += len(ic_terms) + len(is_terms)
         ck.cov["scalar_model_cases"] = {"convert_vs_llgo": len(ic_terms), "set_get_overflow_vs_llgo": len(is_terms),
                                         "convert_vs_go": n_go_ic, "set_get_overflow_vs_go": n_go_is}
@@ -443,6 +480,8 @@ def classify_e2e(k, attr, fam, lv, gv, t):
     if attr == "PkgPath" and lv == "" and t is not None and t[0] == "named" and gen.underlying(t)[0] == "iface":
         return ["reflect-pkgpath-named-interface-empty"]
     if attr == "PkgPath" and lv == "" and gv == "unsafe":
+        return ["reflect-pkgpath-unsafe-pointer-empty"]
+    if attr == "TypeOf" and gv.endswith('|"unsafe"') and lv == gv[:-len('"unsafe"')] + '""':
         return ["reflect-pkgpath-unsafe-pointer-empty"]
     if k.startswith("CV."):
         m = re.match(r"(\S+) -> (\S+): ", gv)
